@@ -404,3 +404,31 @@ Proof.
     eexists. split; [apply F1; exact Hg|]. split; reflexivity.
   - right. split; [exact Hn|]. split; [reflexivity|]. exists j. reflexivity.
 Qed.
+
+(* ================================================================== releasing a value array with more blocks behind it *)
+Lemma destroys_length m h ob h' : destroys m h ob h' -> List.length h' = List.length h.
+Proof. intros [(db & ty & cells & data & _ & _ & _ & _ & _ & _ & _ & ->)|(ty & cnt & dp & _ & _ & _ & ->)]; rewrite ?kill_length; reflexivity. Qed.
+
+Lemma destroys_opt_length m h ov h' : destroys_opt m h ov h' -> List.length h' = List.length h.
+Proof. intros [(_ & ->)|(ob & _ & D)]; [reflexivity|eapply destroys_length; exact D]. Qed.
+
+Lemma destroys_opt_grow m m2 h ov hk x : destroys_opt m h ov hk -> zlen m <= zlen m2 -> destroys_opt m2 (h ++ x) ov (hk ++ x).
+Proof. intros [(N & ->)|(ob & P & D)] Hm; [left; split; [exact N|reflexivity]|right; exists ob; split; [exact P|apply (destroys_grow m m2 h ob hk x D Hm)]]. Qed.
+
+Lemma va_rel_grow m m2 h vb hf x : va_rel m h vb hf -> zlen m <= zlen m2 -> va_rel m2 (h ++ x) vb (hf ++ x).
+Proof.
+  intros (ty & enc & v1 & o1 & o2 & h1 & h2 & Hv & D1 & D2 & K1 & K2 & ->) Hm.
+  assert (Lv : (vb < List.length h)%nat) by (apply nth_error_Some; unfold va_block in Hv; rewrite Hv; discriminate).
+  pose proof (destroys_opt_length _ _ _ _ D1) as L1. pose proof (destroys_opt_length _ _ _ _ D2) as L2.
+  exists ty, enc, v1, o1, o2, (h1 ++ x), (h2 ++ x).
+  split; [unfold va_block in *; rewrite nth_error_app1 by lia; exact Hv|].
+  split; [apply (destroys_opt_grow m m2 _ _ _ x D1 Hm)|]. split; [apply (destroys_opt_grow m m2 _ _ _ x D2 Hm)|].
+  split; [rewrite !nth_error_app1 by lia; exact K1|]. split; [rewrite !nth_error_app1 by lia; exact K2|].
+  rewrite kill_app by lia. reflexivity.
+Qed.
+
+Lemma va_rel_length m h vb hf : va_rel m h vb hf -> List.length hf = List.length h.
+Proof.
+  intros (ty & enc & v1 & o1 & o2 & h1 & h2 & _ & D1 & D2 & _ & _ & ->).
+  rewrite kill_length, (destroys_opt_length _ _ _ _ D2), (destroys_opt_length _ _ _ _ D1). reflexivity.
+Qed.
